@@ -390,6 +390,19 @@ class DHTCommunity(Community):
                 # Ping the node in order to determine RTT
                 self.ping(rt_node)
 
+    def is_answer_of_asked_node(self, msg_type: str, identifier: int, peer: Peer) -> bool:
+        """
+        Check that a response was signed by the node we sent the request to.
+
+        Identifiers are guessable and the key of a node from somebody's node list is a mere claim: a response signed
+        by another key must not be booked as an answer of (and so vouch for) the node we asked.
+        """
+        cache = cast("Request", self.request_cache.get(msg_type, identifier))
+        if peer.public_key.key_to_bin() != cache.node.public_key.key_to_bin():
+            self.logger.warning("Got %s-response that was not signed by the node we asked, dropping packet", msg_type)
+            return False
+        return True
+
     def ping(self, node: Node) -> Future:
         """
         Send a ping to the given node.
@@ -421,6 +434,8 @@ class DHTCommunity(Community):
         """
         if not self.request_cache.has("ping", payload.identifier):
             self.logger.warning("Got ping-response with unknown identifier, dropping packet")
+            return
+        if not self.is_answer_of_asked_node("ping", payload.identifier, peer):
             return
 
         self.logger.debug("Got ping-response from %s", peer.address)
@@ -570,6 +585,8 @@ class DHTCommunity(Community):
         """
         if not self.request_cache.has("store", payload.identifier):
             self.logger.warning("Got store-response with unknown identifier, dropping packet")
+            return
+        if not self.is_answer_of_asked_node("store", payload.identifier, peer):
             return
 
         self.logger.debug("Got store-response from %s", peer.address)
@@ -731,6 +748,8 @@ class DHTCommunity(Community):
         """
         if not self.request_cache.has("find", payload.identifier):
             self.logger.warning("Got find-response with unknown identifier, dropping packet")
+            return
+        if not self.is_answer_of_asked_node("find", payload.identifier, peer):
             return
 
         self.logger.debug("Got find-response from %s", peer.address)
